@@ -296,6 +296,7 @@ pub fn run(ctx: &mut Ctx, replay: Option<&str>) {
     // their first (or last) 32 bits; a presentation that carries both of them is as honest as any other
     if replay.is_none() {
         digest_coincidences(ctx);
+        set_patience(0);
     }
     let mut runs = vec![];
     let mut reqs = vec![];
@@ -369,6 +370,7 @@ pub fn run(ctx: &mut Ctx, replay: Option<&str>) {
 }
 
 fn digest_coincidences(ctx: &mut Ctx) {
+    set_patience(240);
     use base64::Engine;
     let (rows, cols) = (200usize, if ctx.tier == Tier::Quick { 500usize } else { 900 });
     let claims = json!({"iss": "https://issuer.example", "exp": crate::imp::now() + 100000, "arr": (0..rows).map(|i| json!((0..cols).map(|j| json!(i * cols + j)).collect::<Vec<_>>())).collect::<Vec<_>>()});
